@@ -41,7 +41,7 @@ theorem offset_no_wrap (l : Loc) (k L : Int) (hne : l.parts ≠ []) (hp : ∀ p 
   have hb := start_le_part l p hpm
   have hpp := hp p hpm
   have h3 : l.start + k < l.end + k := by omega
-  simp [offsetLocation, hL0, hk, hlen, hlt, h1, h2, h3, shiftedParts_ok l k hp, rebuild_shift,
+  simp [offsetLocation, offsetTrivial, hL0, hk, hlen, hlt, h1, h2, h3, shiftedParts_ok l k hp, rebuild_shift,
     bind, Except.bind, pure, Except.pure]
 
 /-- the loop body of `offset_location` that brings one shifted part back into the record -/
@@ -66,10 +66,10 @@ theorem offsetLocation_general (l : Loc) (k L : Int) (parts : List Part) (hL : 0
     offsetLocation l k L = finishOffset L (parts.flatMap (wrapPart L)) := by
   have hL0 : L ≠ 0 := by omega
   have hlt : ¬ L < 1 := by omega
-  have hnt' : (decide (0 < l.start + k) && decide (l.start + k < l.end + k) && decide (l.end + k < L)) = false := by
-    simp only [Bool.and_eq_false_iff, decide_eq_false_iff_not]
+  have hnt' : offsetTrivial l k L = false := by
+    simp only [offsetTrivial, Bool.and_eq_false_iff, decide_eq_false_iff_not]
     omega
-  unfold offsetLocation finishOffset
+  unfold offsetLocation wrapParts finishOffset
   simp only [hL0, hk, hlen, hlt, hnt', hsp, bind, Except.bind, pure, Except.pure, Bool.or_self, decide_false,
     if_false, Bool.false_eq_true]
   rfl
